@@ -43,7 +43,8 @@ REQUIREMENTS = {
            b"1.0", b"abc", b">=1.0,"],
 }
 
-TAGSETS = [b"latest", b"next", b"latest,next", b"beta", b"next,latest", b"notlatest", b"", b"lat,est", b"beta,canary"]
+TAGSETS = [b"latest", b"next", b"latest,next", b"beta", b"next,latest", b"notlatest", b"", b"lat,est", b"beta,canary",
+            b"latest-2,latest", b"notlatest,stable,latest", b"latest,latest-2", b"xlatest,next,latest", b"latestx,latest"]
 
 
 def attrs_dump(pairs):
